@@ -654,9 +654,17 @@ class Corpus:
             nff = sum(1 for b in d.blocks if b["kind"] == "ff")
             if nff < 2:
                 continue
-            perms = list(itertools.permutations(range(nff)))
-            if len(perms) > limit:
-                perms = self.R.sample(perms, limit)
+            if nff <= 6:
+                perms = list(itertools.permutations(range(nff)))
+                if len(perms) > limit:
+                    perms = self.R.sample(perms, limit)
+            else:                       # never materialise n! tuples: draw distinct random permutations
+                seen = set()
+                while len(seen) < limit:
+                    q = list(range(nff))
+                    self.R.shuffle(q)
+                    seen.add(tuple(q))
+                perms = sorted(seen)
             for mode in modes:
                 for p in perms:
                     top, exc = kernel.build(self.mod, d, mode, ff_perm=p)
